@@ -229,6 +229,12 @@ func (c *Ctx) Incomplete(what string) {
 // Failed reports whether this execution already has a failure.
 func (c *Ctx) Failed() bool { return len(c.fails) > 0 }
 
+// NumFailures is the number of failures this execution has recorded so far
+// (bodies that enumerate a whole family in one execution stop after a few: on a
+// broken tree nearly every case fails, and every failing execution is run again
+// five times).
+func (c *Ctx) NumFailures() int { return len(c.fails) }
+
 // Property is the id of the property the running check decides.
 func (c *Ctx) Property() string {
 	if c.st != nil {
